@@ -276,6 +276,15 @@ RenameNet ==
 Image(c, T) == LET S == {p \in DOMAIN T : Inside(c, p)}
                IN [k \in {MapC(c, p, <<>>) : p \in S} |-> T[CHOOSE p \in S : MapC(c, p, <<>>) = k]]
 Mirror == (Consistent /\ ~cfg.incr) => dstT = Image(cfg, srcT)
+(* the judgement of a settled sink tree T2 against the source tree S (files only): not
+   incremental: exactly the image of the watched part; incremental: every watched file is
+   there with its content below one of the two days, and nothing lies outside dst *)
+MirrorOk(c, S, T2) ==
+  IF ~c.incr THEN T2 = Image(c, S)
+  ELSE /\ \A p \in DOMAIN S : Inside(c, p) => \E d \in {c.d1, c.d2} : Is(T2, MapC(c, p, <<d>>), S[p])
+       /\ \A k \in DOMAIN T2 : IsPrefix(c.dst, k)
+(* (a change the target made itself is modelled as already present in a plain target tree only) *)
+RefMirrorOk == (Consistent /\ (cfg.incr => ~TargetIsCluster(cfg))) => MirrorOk(cfg, srcT, dstT)
 (* an incremental sink never loses a key *)
 IncrementalKeeps == [][cfg.incr => DOMAIN dstT \subseteq DOMAIN dstT']_vars
 
